@@ -20,6 +20,7 @@ type Clause struct {
 }
 
 type LoopContract struct {
+	Forget     bool // at the loop head keep only the function's preconditions and the invariants
 	Invariants []*Clause
 	Decreases  *Clause
 	Modifies   []*Clause // optional refinement of the loop's write set
@@ -57,6 +58,8 @@ type FuncContract struct {
 	Replay   map[string]string // label -> template spec
 	File     string
 	Line     int
+	Uses     map[string]bool // when non-nil: only the postconditions of these callees are assumed (others: results and write sets only)
+	MaxPaths int             // live symbolic paths kept apart before joining (default 4)
 	Bounded  string          // non-empty: obligations of this function are bounded stand-ins (text = bound)
 	Skip     map[string]bool // kinds of implicit obligations not generated (reported)
 	Notes    []string
@@ -116,7 +119,7 @@ var propsRe = regexp.MustCompile(`^@([A-Z0-9,]+)\s+`)
 var clauseKeywords = map[string]bool{
 	"func": true, "iface": true, "fieldfunc": true, "spec": true, "lemma": true, "axiom": true, "modset": true, "requires": true, "ensures": true, "modifies": true, "loop": true,
 	"invariant": true, "decreases": true, "trusted": true, "props": true, "ghost": true, "at": true,
-	"pure": true, "nopanic": true, "replay": true, "bounded": true, "skip": true, "note": true,
+	"pure": true, "nopanic": true, "paths": true, "forget": true, "uses": true, "replay": true, "bounded": true, "skip": true, "note": true,
 }
 
 type rawLine struct {
@@ -317,6 +320,24 @@ func (cs *ContractSet) ParseContractFile(pkgPath, filename string, f *ast.File, 
 				if rest != "" {
 					cur.Notes = append(cur.Notes, rest)
 				}
+			case "uses":
+				if cur.Uses == nil {
+					cur.Uses = map[string]bool{}
+				}
+				for _, u := range strings.Fields(strings.ReplaceAll(rest, ",", " ")) {
+					cur.Uses[u] = true
+				}
+			case "forget":
+				if curLoop == nil {
+					return fmt.Errorf("%s:%d: forget outside loop", filename, l.line)
+				}
+				curLoop.Forget = true
+			case "paths":
+				n, err := strconv.Atoi(strings.TrimSpace(rest))
+				if err != nil || n < 1 {
+					return fmt.Errorf("%s:%d: bad paths clause", filename, l.line)
+				}
+				cur.MaxPaths = n
 			case "pure":
 				cur.Pure = true
 			case "nopanic":
